@@ -291,8 +291,10 @@ impl<const LEVELS: usize> OrderBook<LEVELS> {
     /// Get current mid-price (as a float)
     pub fn mid_price(&self) -> f64 {
         let (bid, ask) = self.bid_ask();
-        let spread = ask - bid;
-        f64::from(bid) + 0.5 * f64::from(spread)
+        // The book can be crossed (bid > ask) if orders were
+        // placed whilst trading was disabled
+        let spread = f64::from(ask) - f64::from(bid);
+        f64::from(bid) + 0.5 * spread
     }
 
     /// Get current level 1 market data
